@@ -97,6 +97,11 @@ func (x *ctx) callValue(st *state, fr *frame, fnv val, args []val, c *ssa.CallCo
 	_ = full
 	// bound-method and thunk wrappers
 	if callee.Synthetic != "" && strings.HasPrefix(callee.Synthetic, "bound method wrapper") {
+		if fo, ok := callee.Object().(*types.Func); ok {
+			if _, isIface := fo.Type().(*types.Signature).Recv().Type().Underlying().(*types.Interface); isIface && len(fnv.bind) > 0 {
+				return x.invoke(st, fr, fnv.bind[0], fo, args, fo.Type().(*types.Signature).Recv().Type(), rt)
+			}
+		}
 		m := x.w.prog.FuncValue(callee.Object().(*types.Func))
 		if m == nil {
 			m = x.w.prog.FuncValue(callee.Object().(*types.Func).Origin())
@@ -1095,6 +1100,36 @@ func (x *ctx) applyModifies(st, pre *state, con *Contract, mods []*ModItem, env 
 				hi = x.ghostInfo(mi.Ghost, stub.Signature)
 			}
 			x.ghostWrite(st, mi.Ghost, idx, x.freshTerm("mod_"+mi.Ghost, hi.elem))
+		case "allmaps":
+			var ks []string
+			for k := range x.hinfo {
+				if strings.HasPrefix(k, "G:mapP_") || strings.HasPrefix(k, "G:mapV_") || k == "G:mapN" {
+					ks = append(ks, k)
+				}
+			}
+			sort.Strings(ks)
+			// maps created by the function under verification that are not among the arguments of this call are out
+			// of the callee's reach (they live in local variables only): their rows are kept
+			argTerms := map[string]bool{}
+			for _, pn := range con.Params {
+				if v, ok := env(pn, nil); ok && v.t.s != "" {
+					argTerms[v.t.s] = true
+				}
+			}
+			for _, k := range ks {
+				old, had := st.heap[k]
+				if !had {
+					old = x.initialName(k)
+				}
+				x.havocKey(st, k)
+				if cur, ok := st.heap[k]; ok && cur != old && x.seen[old] {
+					for _, a := range x.allocated {
+						if !argTerms[a.s] {
+							st.define(fmt.Sprintf("(= (select %s %s) (select %s %s))", cur, a.s, old, a.s))
+						}
+					}
+				}
+			}
 		case "mapof":
 			f := x.synth(con, mi.ArgFns[0])
 			base := x.evalSpecFn(pre, f, nil, x.bindArgs(f, nil, env))
@@ -1436,7 +1471,37 @@ func (x *ctx) callbackCall(st *state, fr *frame, cb *cbRef, args []val, rt types
 		})
 		st.assume(r.t.s)
 	}
-	return []outcome{{st: st, ret: ret}}
+	if x.spec == 0 {
+		// the same result / argument log as for user callbacks (ghost_ret_<name>[_i], ghost_arg_<name>_i)
+		short := strings.TrimPrefix(spec.Name, "result:")
+		if ret.t.s != "" {
+			x.ghostWrite(st, "ghost_ret_"+short, nil, ret.t)
+		} else if ret.agg && len(ret.fields) <= 4 {
+			for i, f := range ret.fields {
+				if f.t.s != "" {
+					x.ghostWrite(st, fmt.Sprintf("ghost_ret_%s_%d", short, i), nil, f.t)
+				}
+			}
+		}
+		var leaves []term
+		okL := true
+		for _, a := range args {
+			flattenPlain(a, &leaves, &okL)
+		}
+		if okL && len(leaves) <= 8 {
+			for i, l := range leaves {
+				x.ghostWrite(st, fmt.Sprintf("ghost_arg_%s_%d", short, i), nil, l)
+			}
+		}
+	}
+	outs := []outcome{{st: st, ret: ret}}
+	if x.spec == 0 && x.con != nil && x.con.Flags["panics"] && !strings.HasPrefix(spec.Name, "result:") && len(spec.Ensures) == 0 && len(spec.Requires) == 0 {
+		// a callback that stands for user code (only a footprint is declared for it) may panic like any user callback
+		ps := st.clone()
+		ps.sig = append(ps.sig, "panic:cb:"+spec.Name)
+		outs = append(outs, outcome{st: ps, panic: true})
+	}
+	return outs
 }
 
 // ---------------------------------------------------------------- loops
@@ -1570,6 +1635,9 @@ func (x *ctx) loopEntry(st *state, fr *frame, b *ssa.BasicBlock, prev *ssa.Basic
 			x.typeTag(st, fr.regs[ph].t, ph.Type())
 			if fr.regs[ph].t.s != "" && isRefType(ph.Type()) {
 				x.noteAllocated(st, fr.regs[ph].t)
+				if localMapValue(ph, map[ssa.Value]bool{}) {
+					x.markLocal(st, fr.regs[ph].t)
+				}
 			}
 		}
 	}
@@ -1837,9 +1905,86 @@ func (x *ctx) havocLoop(st *state, fr *frame, b *ssa.BasicBlock) {
 			if v := st.cells[id]; v.t.s != "" && isRefType(t) {
 				x.typeTag(st, v.t, t)
 				x.noteAllocated(st, v.t)
+				if al := x.cellAlloc[id]; al != nil && localMapCell(al, map[ssa.Value]bool{}) {
+					x.markLocal(st, v.t)
+				}
 			}
 		}
 	}
+}
+
+// localMapValue reports whether v is a map that can only have been created by the enclosing function (make or nil,
+// through phis and through local variables that are never assigned anything else and never escape).
+func localMapValue(v ssa.Value, seen map[ssa.Value]bool) bool {
+	if _, isMap := v.Type().Underlying().(*types.Map); !isMap {
+		return false
+	}
+	if seen[v] {
+		return true
+	}
+	seen[v] = true
+	switch v := v.(type) {
+	case *ssa.MakeMap:
+		return true
+	case *ssa.Const:
+		return v.IsNil()
+	case *ssa.Phi:
+		for _, e := range v.Edges {
+			if !localMapValue(e, seen) {
+				return false
+			}
+		}
+		return true
+	case *ssa.UnOp:
+		if al, ok := v.X.(*ssa.Alloc); ok && v.Op == token.MUL {
+			return localMapCell(al, seen)
+		}
+	}
+	return false
+}
+
+func localMapCell(al *ssa.Alloc, seen map[ssa.Value]bool) bool {
+	if _, isMap := deref(al.Type()).Underlying().(*types.Map); !isMap {
+		return false
+	}
+	if seen[al] {
+		return true
+	}
+	seen[al] = true
+	if al.Referrers() == nil {
+		return false
+	}
+	for _, r := range *al.Referrers() {
+		switch r := r.(type) {
+		case *ssa.UnOp, *ssa.DebugRef:
+		case *ssa.Store:
+			if r.Addr != ssa.Value(al) || !localMapValue(r.Val, seen) {
+				return false
+			}
+		default:
+			return false // captured by a closure or passed on: other code may assign it
+		}
+	}
+	return true
+}
+
+// markLocal records that the loop-carried value r denotes a map created by the function under verification (or nil):
+// it differs from every reference the function received, and calls that do not receive it cannot write it.
+func (x *ctx) markLocal(st *state, r term) {
+	if x.spec != 0 || r.s == "" {
+		return
+	}
+	var names []string
+	for n := range x.params {
+		names = append(names, n)
+	}
+	sort.Strings(names)
+	for _, n := range names {
+		if p := x.params[n]; p.t.s != "" && p.t.srt == sRef {
+			st.define(fmt.Sprintf("(or (= %s %s) %s)", r.s, null.s, not(eq(r, p.t))))
+		}
+	}
+	x.allocated = append(x.allocated, r)
 }
 
 type modSet struct {
@@ -2025,7 +2170,7 @@ func (x *ctx) contractMods(con *Contract, mods []*ModItem, ms *modSet) {
 			}
 		case "wholekey":
 			ms.keys[mi.Field] = true
-		case "mapof":
+		case "mapof", "allmaps":
 			for k := range x.hinfo {
 				if strings.HasPrefix(k, "G:mapP_") || strings.HasPrefix(k, "G:mapV_") || k == "G:mapN" {
 					ms.keys[k] = true
@@ -2472,8 +2617,14 @@ func (x *ctx) callbackConformance(st *state, fr *frame, con *Contract, callee *s
 		outs := x.callValue(S, fr, a, cbArgs, nil, rt)
 		x.paths = savePaths
 		site := shortTarget(con.Target) + ":" + name
+		userValue := false
+		if a.fn != nil && a.fn.Synthetic != "" && strings.HasPrefix(a.fn.Synthetic, "bound method wrapper") {
+			if fo, ok := a.fn.Object().(*types.Func); ok {
+				_, userValue = fo.Type().(*types.Signature).Recv().Type().Underlying().(*types.Interface)
+			}
+		}
 		exempt := func(k string) bool {
-			if isPure && strings.HasPrefix(k, "G:calls_") {
+			if (isPure || userValue) && strings.HasPrefix(k, "G:calls_") {
 				return true // invocation logs of the user callbacks that the value itself calls
 			}
 			return k == "G:calls_"+name || strings.HasPrefix(k, "G:calls_") && a.fn != nil && k == "G:calls_"+a.fn.Name()
